@@ -167,10 +167,15 @@ def judge_common(ctx, prop, progres, stress_runs, races):
                                  'signature': {'engine': 'queue', 'kind': 'stuck', 'has_clear': hc,
                                                'clear_overlaps': clear_overlaps(hist)}})
     if prop == 'C04':
-        rejected = qe.validate_histories(ctx, [it for it in items if qe.complete(it[2])], 'h')
+        # every history, also those that did not run to completion: a history that is
+        # wrong before its end (a panic, a wrong result) is a matter of C04; one that is
+        # only rejected at its end (calls left waiting) is a matter of C05
+        rejected = qe.validate_histories(ctx, items, 'h')
         for key, off in rejected:
             prog, sched, r = meta[key]
             hist = r['history']
+            if not qe.complete(hist) and off >= len(hist):
+                continue
             pan = any(isinstance(e.get('r'), dict) and e['r'].get('t') == 'panic' for e in hist)
             hc = bool(prog) and qe.has_clear(prog)
             what = 'history not linearizable as a bounded FIFO (deepest event explained: %d of %d)%s: %s' % (
